@@ -31,11 +31,23 @@ inline size_t heapBytes()
 #endif
 }
 
-// true iff LeakSanitizer finds unreachable memory (each leak is reported once)
+// LeakSanitizer's recoverable check reports every leak that exists at the time of the call - also the ones it has reported
+// before. Once a leak has been seen, later cases of the same process cannot be judged by it any more ("poisoned"):
+// the failing case is kept as it is and minimised out of process by the driver (every replay is a fresh process).
+inline bool & lsanPoisoned()
+{
+	static bool poisoned = false;
+	return poisoned;
+}
+
+// true iff LeakSanitizer finds unreachable memory
 inline bool confirmLeak()
 {
 #ifdef VF_ASAN
-	return __lsan_do_recoverable_leak_check() != 0;
+	if(lsanPoisoned()) return false;
+	const bool leak = __lsan_do_recoverable_leak_check() != 0;
+	if(leak) lsanPoisoned() = true;
+	return leak;
 #else
 	return false;
 #endif
